@@ -44,6 +44,7 @@ package protectedmemory
 //@ spec fn wfS(s *secretInternal) bool = s != nil && s.rw != nil && s.c != nil && s.mc != nil && valid(s.rw)
 
 //@ func newSecret
+//@   names size, mc
 //@   facet C11, C12
 //@   safety C12
 //@   opt no-frame
@@ -54,6 +55,7 @@ package protectedmemory
 //@   ensures [C12:failed-creation-leaves-nothing-locked] err != nil ==> (forall p ref :: locked(p) ==> old(locked(p)))
 
 //@ func (*SecretFactory).New
+//@   names f, b
 //@   facet C10, C11, C12
 //@   safety C12
 //@   opt no-frame
@@ -65,6 +67,7 @@ package protectedmemory
 //@   ensures [C12:in-use-counted-only-on-success] cnt(securememory.InUseCounter) == old(cnt(securememory.InUseCounter)) + (if err == nil then 1 else 0)
 
 //@ func (*SecretFactory).createRandom
+//@   names f, size, readFunc
 //@   facet C11, C12
 //@   safety C12
 //@   opt no-frame
@@ -81,6 +84,7 @@ package protectedmemory
 //@   modifies b[*]
 
 //@ func (*secretInternal).access
+//@   names s
 //@   facet C11, C12
 //@   safety C12
 //@   opt no-frame
@@ -92,6 +96,7 @@ package protectedmemory
 //@   ensures [C11:reader-sees-read-only-memory] err == nil ==> s.accessCounter == old(s.accessCounter) + 1 && prot(arr(s.bytes)) == 1 && !s.closed && mapped(arr(s.bytes)) && locked(arr(s.bytes))
 
 //@ func (*secretInternal).release
+//@   names s
 //@   facet C11, C12
 //@   safety C12
 //@   opt no-frame
@@ -102,6 +107,7 @@ package protectedmemory
 //@   ensures [C11:last-reader-restores-no-access] err == nil && s.accessCounter == 0 && !old(s.closed) ==> prot(arr(s.bytes)) == 0
 
 //@ func (*secretInternal).close
+//@   names s
 //@   facet C11, C12
 //@   safety C12
 //@   opt no-frame
@@ -111,6 +117,7 @@ package protectedmemory
 //@   ensures [C12:in-use-released-only-when-closed] cnt(securememory.InUseCounter) == old(cnt(securememory.InUseCounter)) - (if err == nil then 1 else 0)
 
 //@ func (*secretInternal).Close
+//@   names s
 //@   facet C11, C12
 //@   safety C12
 //@   opt no-frame
@@ -123,6 +130,7 @@ package protectedmemory
 //@   ensures [C11:later-access-refused] s.closing
 
 //@ func (*secret).WithBytesFunc
+//@   names s, action
 //@   facet C11, C12
 //@   safety C12
 //@   opt no-frame
@@ -131,6 +139,7 @@ package protectedmemory
 //@   ensures [C11:lock-released] *s.secretInternal.rw == 0
 
 //@ func (*secret).WithBytes
+//@   names s, action
 //@   facet C11, C12
 //@   safety C12
 //@   opt no-frame
